@@ -6,7 +6,7 @@
 //!        auth: 1 = a registry authenticator is configured (the request carries no credentials)
 //!        cfg[9] (optional): 0 = the door after the TLS handshake | 1 = the real listener over TLS | 3 = the real listener over QUIC + HTTP/3
 //!        (the hosts are then localhost / ping.localhost / speed.localhost / rp.localhost and the SNI selects the channel)
-//!        cfg[10] (optional) = 1: idle probe (see below)
+//!        cfg[10] (optional) = 1: idle probe (see below); cfg[11] (optional) = 1: the reverse-proxy path mask is "/sp" instead of "/rp"
 //! out: [status] [body_len, body_all_zero] origin_request_head [origin_accepts, relayed_ok] response_headers(flat, sorted)
 //!      [idle session closed by the endpoint: 0 | 1 | 2 = not probed]
 use crate::util::*;
@@ -119,7 +119,7 @@ pub fn session(toks: Vec<Tok>) -> Vec<Tok> {
                     ReverseProxySettings::builder()
                         .server_address(origin_addr.to_string().as_str())
                         .unwrap()
-                        .path_mask("/rp".to_string())
+                        .path_mask(if cfg.get(11).copied().unwrap_or(0) == 1 { "/sp".to_string() } else { "/rp".to_string() })
                         .build()
                         .unwrap(),
                 );
